@@ -41,6 +41,7 @@ def opts(tier):
     o.nasty_names = 0.05
     o.pad_p = 0.03
     o.declared_huge_p = 0.1          # the last segment states a chunk of 4 GiB and holds a few rows of it
+    o.declared_huge_rows_only = True
     return gen.deepen(o, tier)
 
 
